@@ -10,7 +10,12 @@ pub fn step_bound(n: usize) -> u64 {
 }
 
 pub fn eval(ctx: &mut Ctx, c: &EncCase, tag: &str) {
+    if ctx.violation_count > 0 {
+        // fail fast: once a bound is broken, later (longer) inputs may take arbitrarily long
+        return;
+    }
     ctx.eval();
+    crate::ctx::trace_case(|| c.to_case("planwork").flat());
     let Some(list) = list_from_spec(&c.list) else { return ctx.harness_error("bad list spec") };
     let case = || c.to_case("planwork");
     let (input, mask) = (&c.input, c.mask);
@@ -83,7 +88,7 @@ pub fn run(ctx: &mut Ctx) {
         if ctx.mine(item) {
             for cls in [&[Class::Digit][..], &[Class::Upper], &[Class::Lower, Class::Digit], &[Class::Upper, Class::Lower, Class::EdiPunct], &[Class::HighOther, Class::Digit]] {
                 let input = alternation(ctx, n, 1 + n % 3, cls);
-                eval(ctx, &EncCase { input, list: if n % 2 == 0 { "default".into() } else { "all".into() }, mask: 63, macros: false, fnc1: false, eci: None }, "length_sweep");
+                eval(ctx, &EncCase { input, list: if n % 2 == 0 { "default".into() } else { "all".into() }, mask: 63, macros: false, fnc1: false, eci: None, order: 0 }, "length_sweep");
             }
         }
         item += 1;
@@ -96,10 +101,10 @@ pub fn run(ctx: &mut Ctx) {
                 if ctx.mine(item) {
                     let n = if ctx.is_thorough() { 1200 } else { 300 };
                     let input = alternation(ctx, n, period, &[core[a], core[b]]);
-                    eval(ctx, &EncCase { input: input.clone(), list: "default".into(), mask: 63, macros: false, fnc1: false, eci: None }, "alternation_pairs");
+                    eval(ctx, &EncCase { input: input.clone(), list: "default".into(), mask: 63, macros: false, fnc1: false, eci: None, order: 0 }, "alternation_pairs");
                     let c3 = core[(a + b + period) % core.len()];
                     let input = alternation(ctx, n, period, &[core[a], core[b], c3]);
-                    eval(ctx, &EncCase { input, list: "all".into(), mask: 63, macros: false, fnc1: false, eci: None }, "alternation_triples");
+                    eval(ctx, &EncCase { input, list: "all".into(), mask: 63, macros: false, fnc1: false, eci: None, order: 0 }, "alternation_triples");
                 }
                 item += 1;
             }
@@ -109,7 +114,7 @@ pub fn run(ctx: &mut Ctx) {
     for mask in 1..=63u8 {
         if ctx.mine(item) {
             let input = alternation(ctx, 600, 2, &[Class::Upper, Class::Lower, Class::Digit, Class::EdiPunct]);
-            eval(ctx, &EncCase { input, list: "default".into(), mask, macros: false, fnc1: false, eci: None }, "all_63_subsets_long_input");
+            eval(ctx, &EncCase { input, list: "default".into(), mask, macros: false, fnc1: false, eci: None, order: 0 }, "all_63_subsets_long_input");
         }
         item += 1;
     }
